@@ -4,7 +4,7 @@ Helper lemmas for the front-end properties C17 (`ruschm FILE`), C18 (REPL), C19 
 import RuschmSpec.Front
 import RuschmProofs.LibLemmas
 import RuschmProofs.StoreLemmas
-import RuschmProofs.EvalLemmas
+-- import RuschmProofs.EvalLemmas
 import RuschmProofs.TextLemmas
 
 namespace Ruschm.FrontSpec
@@ -22,7 +22,7 @@ theorem worldStep_other (fuel : Nat) (w : World) (i j : Nat) (text : List Char) 
   unfold worldStep
   split
   · rfl
-  · simp [List.getElem?_set, Ne.symm h]
+  · simp [Ne.symm h]
 
 theorem worldStep_self (fuel : Nat) (w : World) (i : Nat) (text : List Char) (st : State)
     (h : w[i]? = some st) :
@@ -33,7 +33,8 @@ theorem worldStep_self (fuel : Nat) (w : World) (i : Nat) (text : List Char) (st
     · exact h'
     · rw [List.getElem?_eq_none h'] at h; cases h
   unfold worldStep
-  simp [h, hi]
+  rw [h]
+  simp [hi]
 
 theorem worldStep_none (fuel : Nat) (w : World) (i : Nat) (text : List Char) (h : w[i]? = none) :
     worldStep fuel w i text = (none, w) := by
@@ -64,12 +65,18 @@ theorem runSteps_noninterference (fuel : Nat) (j : Nat) (steps : Steps) : ∀ (w
     · subst hij
       obtain ⟨h1, h2⟩ := worldStep_self fuel w i text st h
       obtain ⟨g1, g2⟩ := ih _ _ h2
-      simp only [runSteps, textsFor, List.filter_cons, decide_true, if_true, List.map_cons, runAlone] at g1 g2 ⊢
-      exact ⟨by rw [h1]; simp only [textsFor] at g1; rw [g1], g2⟩
+      have ht : textsFor i ((i, text) :: rest) = text :: textsFor i rest := by
+        simp [textsFor]
+      rw [ht]
+      simp only [runSteps, runAlone, List.filter_cons, decide_true, if_true, List.map_cons]
+      exact ⟨by rw [h1, g1], g2⟩
     · have h2 : (worldStep fuel w i text).2[j]? = some st := by
         rw [worldStep_other fuel w i j text (Ne.symm hij)]; exact h
       obtain ⟨g1, g2⟩ := ih _ _ h2
-      simp only [runSteps, textsFor, List.filter_cons, hij, decide_false, Bool.false_eq_true, if_false] at g1 g2 ⊢
+      have ht : textsFor j ((i, text) :: rest) = textsFor j rest := by
+        simp [textsFor, hij]
+      rw [ht]
+      simp only [runSteps, List.filter_cons, hij, decide_false, Bool.false_eq_true, if_false]
       exact ⟨g1, g2⟩
 
 end Ruschm.FrontSpec
